@@ -920,15 +920,22 @@ Definition authenticate_raw_user_password (P : prims) (d : doc) (pw : bytes) : r
 Definition has_objstm (m : objmap) : bool :=
   existsb (fun io => match snd io with OStream d _ => has_type d N_ObjStm | _ => false end) m.
 
-(* decrypt_raw's object-stream pass ("Add the objects from the object streams now that they have been decrypted"):
-     for (_, object) in self.objects.iter_mut() {
+(* decrypt_raw's object-stream pass ("Add the objects from the object streams now that they have been decrypted, by
+   the rules the reader applies to a file that is not encrypted", since repo 959d50f):
+     for (id, object) in self.objects.iter_mut() {
          stream of Type ObjStm?  ObjectStream::new(stream): the stream is decompressed IN PLACE (errors ignored),
-         its index and objects are parsed; on Ok the objects are appended to a vector, on Err nothing is
+         its index and objects are parsed; on Ok the block (id.0, members) is pushed, on Err nothing is
      }
-     for (id, entry) in vector { self.objects.entry(id).or_insert(entry); }      // never replaces
+     pass A, per block in that order: the members the cross-reference table places in THIS container
+       (reference_table.get(num) == Some(Compressed { container == id.0 })): self.objects.entry(id).or_insert(entry)
+     pass B, the remaining members of all blocks in order: inserted only when no object of that NUMBER is present,
+       under whatever generation (objects.range((num, 0)..=(num, u16::MAX)) is empty)
    The loader does the same at load time for a document that is not encrypted; for an encrypted file it leaves the
-   object streams alone, so this pass is where their members appear. *)
-Fixpoint objstm_scan (P : prims) (m : objmap) : objmap * list (oid * obj) :=
+   object streams alone, so this pass is where their members appear.
+   Document.reference_table is not a component of [doc]: [xr num] = the container the table gives for [num] in a
+   Compressed entry.  [fun _ => None] is a document whose table has no such entry: every document built in memory and
+   every file lopdf wrote (its writer never emits them). *)
+Fixpoint objstm_scan (P : prims) (m : objmap) : objmap * list (N * objmap) :=
   match m with
   | [] => ([], [])
   | (id, o) :: m' =>
@@ -938,18 +945,27 @@ Fixpoint objstm_scan (P : prims) (m : objmap) : objmap * list (oid * obj) :=
       if has_type d N_ObjStm then
         let n := ObjStm.objstm_new (p_decompress P) d c in
         ((id, OStream (fst (fst n)) (snd (fst n))) :: fst r,
-         (match snd n with ObjStm.OsOk objs => objs | ObjStm.OsErr _ => [] end) ++ snd r)
+         match snd n with ObjStm.OsOk objs => (fst id, objs) :: snd r | ObjStm.OsErr _ => snd r end)
       else ((id, o) :: fst r, snd r)
     | _ => ((id, o) :: fst r, snd r)
     end
   end.
 Definition or_insert (m : objmap) (e : oid * obj) : objmap :=
   match lookup m (fst e) with Some _ => m | None => insert m (fst e) (snd e) end.
-Definition objstm_pass (P : prims) (m : objmap) : objmap :=
-  let r := objstm_scan P m in fold_left or_insert (snd r) (fst r).
+Definition xref_names (xr : N -> option N) (container : N) (e : oid * obj) : bool :=
+  match xr (fst (fst e)) with Some c => c =? container | None => false end.
+Definition has_number (m : objmap) (num : N) : bool := existsb (fun io => fst (fst io) =? num) m.
+Definition add_rest (m : objmap) (e : oid * obj) : objmap :=
+  if has_number m (fst (fst e)) then m else insert m (fst e) (snd e).
+Definition objstm_merge (xr : N -> option N) (blocks : list (N * objmap)) (m : objmap) : objmap :=
+  fold_left add_rest
+    (flat_map (fun b => filter (fun e => negb (xref_names xr (fst b) e)) (snd b)) blocks)
+    (fold_left or_insert (flat_map (fun b => filter (xref_names xr (fst b)) (snd b)) blocks) m).
+Definition objstm_pass (P : prims) (xr : N -> option N) (m : objmap) : objmap :=
+  let r := objstm_scan P m in objstm_merge xr (snd r) (fst r).
 
-(* Document::decrypt_raw; the extra result is the EncryptionState stored in the document *)
-Definition doc_decrypt_raw (P : prims) (d : doc) (pw : bytes) : dres estate :=
+(* Document::decrypt_raw; the extra result is the EncryptionState stored in the document; [xr]: see objstm_scan *)
+Definition doc_decrypt_raw_x (P : prims) (xr : N -> option N) (d : doc) (pw : bytes) : dres estate :=
   if negb (is_encrypted d) then DErr E_NotEncrypted
   else
     match authenticate_raw_password P d pw with
@@ -966,7 +982,7 @@ Definition doc_decrypt_raw (P : prims) (d : doc) (pw : bytes) : dres estate :=
         | Err e => DErrMid e
         | Panic => DPanic
         | Ok objs =>
-          let objs := objstm_pass P objs in
+          let objs := objstm_pass P xr objs in
           DOk {| d_version := d_version d; d_binary_mark := d_binary_mark d;
                  d_trailer := dict_swap_remove (d_trailer d) K_Encrypt;
                  d_objects := (match eid with Some id => remove objs id | None => objs end);
@@ -975,8 +991,11 @@ Definition doc_decrypt_raw (P : prims) (d : doc) (pw : bytes) : dres estate :=
       end
     end.
 
+(* a document whose cross-reference table has no Compressed entries (built in memory, or written by lopdf) *)
+Definition doc_decrypt_raw (P : prims) (d : doc) (pw : bytes) : dres estate := doc_decrypt_raw_x P (fun _ => None) d pw.
+
 (* Document::decrypt (password already prepared) *)
-Definition doc_decrypt (P : prims) (d : doc) (pw : bytes) : dres estate :=
+Definition doc_decrypt_x (P : prims) (xr : N -> option N) (d : doc) (pw : bytes) : dres estate :=
   if negb (is_encrypted d) then DErr E_NotEncrypted
   else
     match palg_of_doc d with
@@ -986,9 +1005,10 @@ Definition doc_decrypt (P : prims) (d : doc) (pw : bytes) : dres estate :=
       match sanitize_password a pw with
       | Err e => DErr e
       | Panic => DPanic
-      | Ok pw' => doc_decrypt_raw P d pw'
+      | Ok pw' => doc_decrypt_raw_x P xr d pw'
       end
     end.
+Definition doc_decrypt (P : prims) (d : doc) (pw : bytes) : dres estate := doc_decrypt_x P (fun _ => None) d pw.
 
 (* the IVs an encrypted object carries, in the order encrypt_object drew them (used by the
    correspondence runner to replay the implementation's random choices) *)
